@@ -17,7 +17,7 @@ SITE_SUB = "Av.is_subclass when self or other has a mesh basis"
 INVS = ["LevelsExact", "SpotsExact", "TopTwoUncompacted", "NoFault", "ReplyCorrect", "ItersSound", "CacheCoherent"]
 OPS_MECH = '{"NewAv", "Count", "OfLength", "Enumeration", "Member"}'
 OPS_CACHE = '{"NewAv", "ClearCache", "Count", "Member", "IsSubclass", "OfLength"}'
-OPS_ALL = '{"NewAv", "ClearCache", "Count", "OfLength", "Enumeration", "Member", "IsSubclass", "Iter"}'
+OPS_ALL = '{"NewAv", "ClearCache", "Count", "OfLength", "Enumeration", "Member", "IsSubclass", "Iter", "Interrupt"}'
 
 
 # ---- basis descriptors -----------------------------------------------------------------
@@ -321,6 +321,94 @@ def random_history(rnd, bases, real, maxlen, steps):
     return ev
 
 
+def interrupted_call(fn, at):
+    """Run fn(); a KeyboardInterrupt is raised at the at-th line executed inside permuta/perm_sets/permset.py (the class's
+    own code, where its tables are changed).  Returns ("done", value) when fn finished first, ("interrupted", None) otherwise."""
+    import sys
+    seen = [0]
+
+    def local(frame, event, arg):
+        if event == "line":
+            seen[0] += 1
+            if seen[0] == at:
+                raise KeyboardInterrupt("injected at line %d of %s" % (frame.f_lineno, frame.f_code.co_name))
+        return local
+
+    def tracer(frame, event, arg):
+        fn_ = frame.f_code.co_filename.replace("\\", "/")
+        return local if fn_.endswith("perm_sets/permset.py") else None
+    old = sys.gettrace()
+    sys.settrace(tracer)
+    try:
+        return "done", fn()
+    except KeyboardInterrupt:
+        return "interrupted", None
+    finally:
+        sys.settrace(old)
+
+
+INTERRUPT_AT = [1, 2, 3, 5, 8, 13, 21, 34, 55, 89, 144, 233, 377, 610, 987, 1597, 2584]
+
+
+def interrupt_history(rnd, bases, real, maxlen, steps):
+    """A history in which some calls are interrupted (KeyboardInterrupt inside the class's code) and the caller goes on
+    with the same objects: the recorded event says how many levels the interrupted call left; every later reply is
+    judged as usual."""
+    ev = [{"op": "Reset"}]
+    real.reset()
+    ninter = 0
+    for _ in range(steps):
+        ni = len(real.insts)
+        r = rnd.random()
+        if ni == 0 or (r < 0.1 and ni < 2):
+            b = rnd.randint(1, len(bases))
+            res = real.do({"name": "NewAv", "n": b, "i": 0})
+            ev.append({"op": "NewAv", "b": b, "res": res["inst"]})
+        else:
+            i = rnd.randint(1, ni)
+            av = real.insts[i - 1]
+            n = rnd.randint(0, maxlen)
+            kind = rnd.choice(["Count", "OfLength", "Member", "Enumeration"])
+            q = util.rand_perm(rnd, n)
+            call = {"Count": lambda: av.count(n), "OfLength": lambda: [list(p) for p in av.of_length(n)],
+                    "Member": lambda: Perm(q) in av, "Enumeration": lambda: list(av.enumeration(n))}[kind]
+            if r < 0.55 and len(av.cache) <= n:
+                st, got = interrupted_call(call, rnd.choice(INTERRUPT_AT))
+            else:
+                st, got = "done", call()
+            if st == "interrupted":
+                ninter += 1
+                ev.append({"op": "Interrupted", "i": i, "n": n, "top": len(av.cache) - 1})
+            elif kind == "Member":
+                ev.append({"op": "Member", "i": i, "q": list(q), "res": got})
+            else:
+                ev.append({"op": kind, "i": i, "n": n, "res": got})
+        ev[-1]["proj"] = real.proj_small()
+    return ev, ninter
+
+
+def long_member_events(ctx, rnd, quick):
+    """`q in Av(B)` for q of a thousand entries on a class object that has built nothing yet (a cold jump of a thousand
+    levels); bases of patterns of length 2, or answers witnessed by an early occurrence, so that TLC decides them by the
+    definition (PContainsQ).  Returns (bases, events)."""
+    bases = [classical((1, 0)), classical((0, 1)), classical((0, 1, 2), (1, 0)), classical((0, 1), (2, 1, 0))]
+    n = 1040 if quick else 1500
+    inc, dec = list(range(n)), list(range(n - 1, -1, -1))
+    swapped = inc[:-2] + [n - 1, n - 2]
+    qs = [(1, inc), (2, dec), (1, swapped), (3, inc), (4, dec), (2, inc[:n // 2]), (1, inc + [n])]
+    events = [{"op": "Reset"}]
+    Av.clear_cache()
+    for b, q in qs:
+        Av.clear_cache()
+        av = make_av(bases[b - 1], rnd.randrange(4))
+        st, got = util.call(lambda: Perm(q) in av)
+        events.append({"op": "LongMember", "b": b, "q": q, "raised": st != "ok", "res": bool(got) if st == "ok" else False,
+                       "detail": "" if st == "ok" else str(got)[:80], "proj": []})
+        ctx.case(("long-member", b, len(q), q[-1]), nontrivial=True)
+    Av.clear_cache()
+    return bases, events
+
+
 def dbg(msg):
     import os, sys, time
     if os.environ.get("VERIF_DEBUG"):
@@ -385,6 +473,23 @@ def run(ctx):
                       workers=8, files={"MC_C02.tla": mod}, timeout=3000)
     ctx.add_tlc(res, "iterator interleavings (model)")
 
+    # ---- interrupted calls in the model: every level and every subset of extended members, then the wrong design ------
+    imod = util.mc_module("MC_C02", "C02_AvCache", {"BasesDef": "<< %s, %s >>" % (tla_basis(classical((0, 2, 1))), tla_basis(classical((0, 1), (2, 1, 0)))),
+                                                      "OpsDef": '{"NewAv", "Count", "Member", "Interrupt"}',
+                                                      "BadOpsDef": '{"NewAv", "Count", "Member", "Interrupt", "InterruptEarlyAppend"}'})
+    k = {"Bases": ("<-", "BasesDef"), "Ops": ("<-", "OpsDef"), "MaxLen": 3 if quick else 4, "MaxInst": 1, "MaxIts": 0}
+    ires, bres, sres = tlc.run_many([
+        ("MC_C02", util.cfg(init="Init", next_="Next", invariants=INVS, constants=k), {"files": {"MC_C02.tla": imod}, "timeout": 3000, "workers": 6}),
+        ("MC_C02", util.cfg(init="Init", next_="Next", invariants=INVS, constants=dict(k, Ops=("<-", "BadOpsDef"))),
+         {"files": {"MC_C02.tla": imod}, "timeout": 3000, "workers": 4, "allow_violation": True}),
+        ("LibSanity", util.cfg(init="Init", next_="Next"), {"timeout": 1500, "workers": 4})], parallel=3)
+    ctx.add_tlc(ires, "interrupted calls (model): replies after an abandoned build are those of the definition")
+    ctx.add_tlc(bres, "wrong design: level registered before it is filled (must be refuted)")
+    ctx.add_tlc(sres, "LibSanity: the definitional library against second characterisations")
+    if bres.violated not in ("LevelsExact", "ReplyCorrect"):
+        raise tlc.MachineryFailure("C02 model vacuous: registering the level before filling it was not refuted (%s)" % bres.violated)
+    ctx.note("early_append_refuted_by_model", bres.violated)
+
     dbg("iterator model done")
     # ---- code -> spec: random histories validated by Trace_C02 ----------------------------------
     nh = 40 if quick else 400
@@ -401,12 +506,33 @@ def run(ctx):
         for _ in range(nh // (4 if quick else 16)):
             events += random_history(rnd, bs, real, tmax, 30)
         groups.append((bs, events))
+    ninter = 0
+    for g in range(2 if quick else 8):
+        bs = [rnd.choice(cl), rnd.choice(cl), rnd.choice(ms)]
+        while bs[1] == bs[0]:
+            bs[1] = rnd.choice(cl)
+        real = Real(bs)
+        events = []
+        for _ in range(6 if quick else 12):
+            e, k_ = interrupt_history(rnd, bs, real, tmax, 14)
+            events += e
+            ninter += k_
+        groups.append((bs, events))
+    ctx.note("interrupted_calls_in_histories", ninter)
+    if ninter == 0:
+        ctx.drift("no call could be interrupted inside permuta/perm_sets/permset.py (file moved?): interrupted histories not exercised")
+    groups.append(long_member_events(ctx, rnd, quick))
     dbg("histories recorded")
-    for bs, events in groups:
-        dbg("validating %d events" % len(events))
+    def validate_group(g):
+        bs, events = g
         mod = util.mc_module("MC_T02", "Trace_C02", {"BasesDef": "<< " + ", ".join(tla_basis(b) for b in bs) + " >>", "OpsDef": OPS_ALL})
         k = {"Bases": ("<-", "BasesDef"), "Ops": ("<-", "OpsDef"), "MaxLen": tmax + 1, "MaxInst": 9, "MaxIts": 9}
-        v = validate(ctx, events, mod, k)
+        return validate(ctx, events, mod, k)
+    import concurrent.futures
+    with concurrent.futures.ThreadPoolExecutor(max_workers=6) as ex:
+        verdicts = list(ex.map(validate_group, groups))
+    dbg("histories validated")
+    for (bs, events), v in zip(groups, verdicts):
         ctx.case(n=len(events))
         first_bad = {}
         for b in v["verdict"]:
@@ -423,7 +549,14 @@ def run(ctx):
     ctx.rule = ("TLC explores the Av cache machine (levels, spots, compaction, class cache) for every basis of the universe; "
                 "a transition tour covers every (mechanism state, call) edge on real Av objects built through varying "
                 "constructors; non-trivial = a query made after at least two earlier calls; plus random histories with "
-                "open iterators validated by Trace_C02")
+                "open iterators validated by Trace_C02; histories in which calls are interrupted by a KeyboardInterrupt inside the "
+                "class's code and the caller goes on (model: action Interrupted, every level and every subset of extended members; "
+                "the design that registers a level before filling it is refuted); membership of permutations of a thousand entries "
+                "on fresh class objects judged by the definition")
+
+
+import threading
+_ACCOUNT = threading.Lock()
 
 
 def validate(ctx, events, mod, k):
@@ -437,13 +570,15 @@ def validate(ctx, events, mod, k):
         res = tlc.run_tlc("MC_T02", c, workers=1, timeout=3000, env={"TRACE_FILE": path}, files={"MC_T02.tla": mod})
     finally:
         os.unlink(path)
-    ctx.add_tlc(res, "trace validation")
+    with _ACCOUNT:
+        ctx.add_tlc(res, "trace validation")
     done = [r for r in res.records if isinstance(r, dict) and "verdict" in r]
     if len(done) != 1 or done[0]["n"] != len(events):
         stuck = events[res.distinct - 1] if 0 < res.distinct <= len(events) else None
         raise tlc.MachineryFailure("Trace_C02: trace not fully consumed; no action of the trace spec was enabled for event %d: %s "
                                    "(preceded by %s)" % (res.distinct, stuck, events[max(0, res.distinct - 4):res.distinct - 1]))
-    ctx.traces += sum(1 for e in events if e["op"] == "Reset")
+    with _ACCOUNT:
+        ctx.traces += sum(1 for e in events if e["op"] == "Reset")
     return done[0]
 
 
